@@ -1,4 +1,4 @@
-import Py4hwV.Proofs.C02Stmt
+import Py4hwV.Proofs.C02Power
 /-
   C02 - Python-to-Verilog transpilation preserves the behaviour of behavioural blocks.
 
@@ -40,18 +40,18 @@ theorem assign_table :
 
 theorem paren_table :
     Gen.TranspileOps.parenLeft = "(1+2)*3" ∧ Gen.TranspileOps.parenRight = "3*(1+2)" ∧
-    Gen.TranspileOps.parenUnary = "-(1+2)" ∧ Gen.TranspileOps.parenCmpRightList = "3==1+2" := by decide
+    Gen.TranspileOps.parenUnary = "-(1+2)" ∧ Gen.TranspileOps.parenCmpRightList = "3==(1+2)" := by decide
 
 /-- the parenthesisation RULE the translation model assumes, spelled out for every ordered pair (outer, inner) of the 10 binary and
-    6 comparison operators: a nested operator is parenthesised on either side of a binary operator and on the left of a comparison;
-    the right comparator is emitted bare (`safeRhs` decides when that is harmless) -/
+    6 comparison operators: a nested operator is parenthesised on either side of a binary operator AND of a comparison
+    (the right comparator too since /repo 72c6814) -/
 def binOps : List BinOp := [.add, .sub, .mul, .fdiv, .fmod, .band, .bor, .bxor, .shl, .shr]
 def cmpOps : List CmpOp := [.eq, .ne, .lt, .le, .gt, .ge]
 def allSyms : List (String × Bool) :=
   binOps.map (fun o => (Gen.TranspileOps.binSym o, false)) ++ cmpOps.map (fun o => (Gen.TranspileOps.cmpSym o, true))
 def expectedPairs : List String :=
-  allSyms.flatMap fun (o, isCmp) => allSyms.flatMap fun (i, _) =>
-    ["(3" ++ i ++ "2)" ++ o ++ "1", if isCmp then "3" ++ o ++ "2" ++ i ++ "1" else "3" ++ o ++ "(2" ++ i ++ "1)"]
+  allSyms.flatMap fun (o, _) => allSyms.flatMap fun (i, _) =>
+    ["(3" ++ i ++ "2)" ++ o ++ "1", "3" ++ o ++ "(2" ++ i ++ "1)"]
 
 set_option maxRecDepth 100000 in
 theorem paren_pairs_table : Gen.TranspileOps.parenPairs = expectedPairs := by decide +kernel
@@ -211,7 +211,7 @@ theorem refuse_or_sound (c : ClassD) :
 theorem trS_sound {σ : Type} {rd : σ → V.Rd} {wr : σ → V.Tgt → V.BV → σ} (L : Laws rd wr) (c : ClassD) (hseq : c.isSeq = true)
     (stmt : Stmt) (s s' : St) (x : V.Ex σ) (hok : okS c stmt = true) (he : execD c none stmt s = some s') (hr : Rel c rd s x) :
     Rel c rd s' (V.exec rd wr none (trS c stmt) x) :=
-  trS_sound_aux L c hseq stmt none none s s' x hok he hr (Or.inl ⟨rfl, rfl⟩)
+  trS_sound_aux L c stmt none none s s' x (by rw [okS, hseq] at hok; exact hok) he hr (Or.inl ⟨rfl, rfl⟩)
 
 /-- inside the domain `execD` is CPython's `exec` -/
 theorem execD_exec (c : ClassD) : ∀ stmt sv s s', execD c sv stmt s = some s' → exec c sv stmt s = .ok s' := by
@@ -336,6 +336,88 @@ theorem transpile_seq_sound_partial {σ : Type} {rd : σ → V.Rd} {wr : σ → 
       have hC1 := cycle_sound L c hseq hok _ s0 _ (drive_crel L c asg s st hC) he
       exact ih _ s' _ hC1 hr
     · simp at hr
+
+/-! ## combinational bodies (`propagate()` -> `always @(*)`), statement / history level -/
+
+/-- COMBINATIONAL CLAUSE.  For every class whose `propagate()` body is in the statement fragment (`okSg false`: locals, `put`,
+    `if`, `match`; no state assignment, no `prepare`) and reads no wire that it puts (`NoRAP`; the complement is the finding
+    C02-read-after-put), for every history of input changes and every pair of related starting states, over any store satisfying
+    the `Laws`: driving the inputs and activating the translated `always @(*)` body once (execute, then apply the non-blocking
+    updates) keeps the Verilog store related to the Python object after `propagate()` - same value on every port after every
+    step.  (`C02.comb_sound` is the single-activation step; Python's immediate `put` is shown equal to queued updates by
+    replaying the call on a shadow state with frozen wires, `C02.p2p_exec`.)  Power-up of never-assigned outputs: see below. -/
+theorem transpile_comb_sound_all {σ : Type} {rd : σ → V.Rd} {wr : σ → V.Tgt → V.BV → σ} (L : Laws rd wr) (c : ClassD)
+    (hok : okSg false c c.body = true) (hrap : NoRAP c.body) (h : List (List (String × Int))) (s s' : St) (st : σ)
+    (hC : CRel c rd s st) (hr : runC c s h = some s') : CRel c rd s' (vRun rd wr c st h) :=
+  transpile_comb_sound L c hok hrap h s s' st hC hr
+
+/-- `supported` gives exactly the hypotheses of the combinational clause -/
+theorem supported_comb (c : ClassD) (hs : supported c = true) (hq : c.isSeq = false) :
+    okSg false c c.body = true ∧ NoRAP c.body := by
+  simp only [supported, Bool.and_eq_true] at hs
+  refine ⟨by have := hs.2; rw [okS, hq] at this; exact this, ?_⟩
+  have hc := hs.1
+  simp only [okClass, Bool.and_eq_true, Bool.or_eq_true, hq, Bool.false_eq_true, false_or, List.all_eq_true,
+    Bool.not_eq_eq_eq_not, Bool.not_true] at hc
+  intro n hn hp
+  have := hc.2 n hn
+  simp [List.contains_iff_mem, hp] at this
+
+/-! ## power-up -/
+
+/-- the emitted `initial` block establishes the state part of `PowerUp` on any store declared as the module declares it -/
+theorem initial_block_sound {σ : Type} {rd : σ → V.Rd} {wr : σ → V.Tgt → V.BV → σ} (L : Laws rd wr) (c : ClassD) (st : σ)
+    (hdist : allDistinct (c.state.map (·.1)) = true)
+    (hst : ∀ p, p ∈ c.state → inDom p.2 = true ∧ isPort c p.1 = false)
+    (ht : ∀ n, (rd st).info n = typing c n) :
+    (∀ n v, lookup c.state n = some v →
+       (rd (V.exec rd wr none (seqOf (initStmts c.state)) ⟨st, []⟩).st).val n = ⟨32, v.toNat, true⟩) ∧
+    (∀ k, k ∉ c.state.map (·.1) → (rd (V.exec rd wr none (seqOf (initStmts c.state)) ⟨st, []⟩).st).val k = (rd st).val k) ∧
+    (∀ n, (rd (V.exec rd wr none (seqOf (initStmts c.state)) ⟨st, []⟩).st).info n = typing c n) := by
+  rw [exec_seqOf]
+  obtain ⟨h1, h2, h3, _⟩ := init_list_sound L c c.state ⟨st, []⟩ hdist hst ht
+  exact ⟨fun n v hl => h1 (n, v) (lookup_mem c.state n v hl), h2, h3⟩
+
+/-- the `initial` and `always` items of the model module are the ones the power-up / cycle theorems talk about -/
+theorem trModule_items (c : ClassD) (hq : c.isSeq = true) :
+    ∃ decls, (trModule c).items =
+      decls ++ [V.Item.initial (seqOf (initStmts c.state)), V.Item.always (.pos c.clk) (trS c c.body)] := by
+  refine ⟨(c.state.map (·.1) ++ newVars c).map fun n => V.Item.int n none, ?_⟩
+  simp only [trModule, hq, if_true]
+  rfl
+
+/-- SEQUENTIAL CLAUSE FROM POWER-UP.  The Verilog side starts as the emitted module starts (`PowerUp`: declarations, state
+    integers from the `initial` block, inputs driven to 0 - and NOTHING known about the `output reg`s: x); the Python side is
+    run with the not-yet-written outputs unknown (`initStU`), i.e. the run fails exactly when an output is read before it was
+    written.  For every input history on which that run succeeds inside the domain:
+      (1) the always-block run ends related to it: same state variables, same value on every input and every output WRITTEN so
+          far - after every prefix of the history, hence for the whole trajectory from cycle 0;
+      (2) the real Python object (all wires 0 at power-up, `initSt`) runs through the same history without raising and ends in
+          the same state variables with the same value on every wire the masked run knows.
+    The complement of the hypothesis - some output read before written - is the finding C02-uninit-output-regs
+    (`uninit_output_counterexample`).  Still not included: the store is abstract (`Laws`) and Run.lean's scheduling. -/
+theorem transpile_seq_sound_from_powerup {σ : Type} {rd : σ → V.Rd} {wr : σ → V.Tgt → V.BV → σ} (L : Laws rd wr) (c : ClassD)
+    (hseq : c.isSeq = true) (hok : okS c c.body = true) (st : σ) (hP : PowerUp c rd st)
+    (h : List (List (String × Int))) (sU : St) (hr : runD c (initStU c) h = some sU) :
+    CRel c rd sU (vRun rd wr c st h) ∧ ∃ sT, runD c (initSt c) h = some sT ∧ Le sU sT :=
+  ⟨transpile_seq_sound_partial L c hseq hok h (initStU c) sU st (powerup_crel hP) hr,
+   runD_mono c h (initStU c) sU (initSt c) hr (initStU_le c)⟩
+
+/-- STATIC sufficient condition: if the body never reads an output port, every history the real Python object runs inside the
+    domain is a history of the clause above (so agreement holds from cycle 0 for ALL in-domain histories). -/
+theorem powerup_safe_of_noOutRead (c : ClassD) (hno : noOutRead c c.body) (h : List (List (String × Int))) (sT : St)
+    (hr : runD c (initSt c) h = some sT) : ∃ sU, runD c (initStU c) h = some sU ∧ Masked c sU sT :=
+  runD_masked c hno h (initSt c) sT (initStU c) hr (initStU_masked c)
+
+/-! ## refusal: completeness for the model -/
+
+/-- every class outside the proved fragment is refused by the model transpiler, and only those -/
+theorem refuse_complete (c : ClassD) : model c = .error .unsupported ↔ supported c = false := by
+  unfold model
+  by_cases h : supported c = true
+  · simp [h]
+  · have : supported c = false := by simpa using h
+    simp [this]
 
 /-! ## non-vacuity: a concrete class, environment and store inside all hypotheses -/
 
@@ -474,7 +556,7 @@ theorem crel0 : CRel c0 rdF sP fsP where
   noPrep := rfl
 
 theorem okS0 : okS c0 c0.body = true := by
-  simp [c0, okS, okV, okC, isState, isPort, isOutPort, ClassD.port?, lookup, wideAssign, sw, isShiftOp, exact, leaf, safeRhs]
+  simp [c0, okS, okSg, okV, okC, isState, isPort, isOutPort, ClassD.port?, lookup, wideAssign, sw, isShiftOp, exact, leaf]
 
 /-- two cycles of the example class stay in the domain ... -/
 example : (runD c0 sP [[("a", 5), ("b", 1)], [("a", 250), ("b", 255)]]).isSome = true := by decide
@@ -482,6 +564,97 @@ example : (runD c0 sP [[("a", 5), ("b", 1)], [("a", 250), ("b", 255)]]).isSome =
 example : ∀ s', runD c0 sP [[("a", 5), ("b", 1)], [("a", 250), ("b", 255)]] = some s' →
     CRel c0 rdF s' (vRun rdF wrF c0 fsP [[("a", 5), ("b", 1)], [("a", 250), ("b", 255)]]) :=
   fun s' h => transpile_seq_sound_partial fstore_laws c0 rfl okS0 _ sP s' fsP crel0 h
+
+/-! non-vacuity of the power-up clause: the example class on a store whose output `q` is x -/
+def fsU : FStore := { info := typing c0,
+                      val := fun n => if n == "s" then ⟨32, 3, true⟩ else if n == "a" then ⟨8, 0, true⟩
+                                      else if n == "b" then ⟨8, 0, true⟩ else V.BV.x 8 }
+
+theorem powerup0 : PowerUp c0 rdF fsU where
+  typed := fun _ => rfl
+  state := by
+    intro n v h
+    by_cases hn : n = "s"
+    · subst hn; simp [c0, lookup] at h; subst h; rfl
+    · simp [c0, lookup] at h; exact absurd h.1.symm hn
+  par := by intro n v h; simp [c0, lookup] at h
+  inp := by
+    intro n p hp ho
+    simp only [c0, ClassD.port?, List.find?] at hp
+    split at hp
+    · simp only [Option.some.injEq] at hp; subst hp
+      rename_i hn; simp at hn; subst hn; rfl
+    · split at hp
+      · simp only [Option.some.injEq] at hp; subst hp
+        rename_i hn; simp at hn; subst hn; rfl
+      · split at hp
+        · simp only [Option.some.injEq] at hp; subst hp; simp at ho
+        · simp at hp
+
+example : (runD c0 (initStU c0) [[("a", 5), ("b", 1)], [("a", 250), ("b", 255)]]).isSome = true := by decide
+
+example : ∀ sU, runD c0 (initStU c0) [[("a", 5), ("b", 1)], [("a", 250), ("b", 255)]] = some sU →
+    CRel c0 rdF sU (vRun rdF wrF c0 fsU [[("a", 5), ("b", 1)], [("a", 250), ("b", 255)]]) :=
+  fun sU h => (transpile_seq_sound_from_powerup fstore_laws c0 rfl okS0 fsU powerup0 _ sU h).1
+
+/-- the example class never reads its output -/
+example : noOutRead c0 c0.body := by
+  intro n hn
+  simp [c0, getsS, getsE] at hn
+  rcases hn with rfl | rfl <;> simp [isOutPort, c0, ClassD.port?]
+
+/-! non-vacuity of the combinational clause -/
+def cC : ClassD :=
+  { name := "C", ports := [⟨"a", "a", 8, false⟩, ⟨"b", "b", 8, false⟩, ⟨"q", "q", 8, true⟩], state := [], consts := [],
+    params := [], isSeq := false, clk := "clk",
+    body := .seq (.setLoc "t" (.bin .add (.get "a") (.const 1)))
+                 (.ife (.cmp .gt (.loc "t") (.get "b")) (.put "q" (.loc "t")) (.put "q" (.get "b"))) }
+
+theorem okC0 : okSg false cC cC.body = true := by
+  simp [cC, okSg, okV, okC, isState, isPort, isOutPort, ClassD.port?, lookup, wideAssign, sw, isShiftOp, exact, leaf]
+
+theorem norap0 : NoRAP cC.body := by
+  intro n hn hp
+  simp [cC, getsS, getsE, putsS] at hn hp
+  rcases hn with rfl | rfl | rfl <;> simp at hp
+
+example : supported cC = true := by
+  simp [supported, okClass, okS, cC, okSg, okV, okC, isState, isPort, isOutPort, ClassD.port?, lookup, wideAssign, sw, isShiftOp,
+    exact, leaf, allDistinct, newVars, namesS, namesE, dedup, getsS, getsE, putsS]
+
+def sC : St := { loc := fun _ => none, att := fun _ => none,
+                 wire := fun n => if n == "a" then some 0 else if n == "b" then some 0 else if n == "q" then some 0 else none, prep := [] }
+def fsC : FStore := { info := typing cC,
+                      val := fun n => if n == "a" then ⟨8, 0, true⟩ else if n == "b" then ⟨8, 0, true⟩ else if n == "q" then ⟨8, 0, true⟩ else V.BV.x 1 }
+
+theorem crelC : CRel cC rdF sC fsC where
+  agree := {
+    loc := by intro n v h; simp [St.env, sC] at h
+    att := by intro n v h; simp [St.env, sC, cC, lookup] at h
+    cst := by intro n v k h; simp [St.env, sC, cC, lookup] at h
+    par := by intro n v h; simp [St.env, cC, lookup] at h
+    wire := by
+      intro n v p h hp
+      simp only [St.env, sC] at h
+      split at h
+      · rename_i hn; simp at hn; subst hn; simp at h; subst h
+        simp [cC, ClassD.port?] at hp; subst hp; decide
+      · split at h
+        · rename_i hn; simp at hn; subst hn; simp at h; subst h
+          simp [cC, ClassD.port?] at hp; subst hp; decide
+        · split at h
+          · rename_i hn; simp at hn; subst hn; simp at h; subst h
+            simp [cC, ClassD.port?] at hp; subst hp; decide
+          · simp at h }
+  typed := fun _ => rfl
+  attDom := by intro k v h; simp [sC] at h
+  noPrep := rfl
+
+example : (runC cC sC [[("a", 5), ("b", 1)], [("b", 200)], []]).isSome = true := by decide
+
+example : ∀ s', runC cC sC [[("a", 5), ("b", 1)], [("b", 200)], []] = some s' →
+    CRel cC rdF s' (vRun rdF wrF cC fsC [[("a", 5), ("b", 1)], [("b", 200)], []]) :=
+  fun s' h => transpile_comb_sound_all fstore_laws cC okC0 norap0 _ sC s' fsC crelC h
 
 /-! ## negative results: constructs the real transpiler accepts and mistranslates (each replayed on the real code) -/
 
@@ -496,11 +669,12 @@ theorem narrow_compare_counterexample :
     V.evalAssign (r1 200 100 3 ⟨8, 0, true⟩) 32 (trE c0 (.cmp .gt (.bin .add (.get "a") (.get "b")) (.get "b"))) = ⟨32, 0, true⟩ :=
   ⟨by decide, by decide⟩
 
-/-- `a == (b & 1)` is emitted as `a==b&1`, which Verilog reads `(a==b)&1`: a=b=3 gives Python False, Verilog 1 -/
-theorem cmp_rhs_precedence_counterexample :
+/-- why the right comparator needs its parentheses (repaired in /repo 72c6814): the bare text `a==b&1` denotes `(a==b)&1`;
+    a=b=3 gives Python False for `a == (b & 1)`, that tree gives 1 -/
+theorem cmp_rhs_unparenthesised_counterexample :
     evalD (ρ1 3 3 3) (.cmp .eq (.get "a") (.bin .band (.get "b") (.const 1))) = some 0 ∧
-    safeRhs .eq (.bin .band (.get "b") (.const 1)) = false ∧
-    V.evalAssign (r1 3 3 3 ⟨8, 0, true⟩) 32 (.bin "and" (.bin "eq" (.id "a") (.id "b")) (.num none true 1 true)) = ⟨32, 1, true⟩ :=
+    V.evalAssign (r1 3 3 3 ⟨8, 0, true⟩) 32 (.bin "and" (.bin "eq" (.id "a") (.id "b")) (.num none true 1 true)) = ⟨32, 1, true⟩ ∧
+    V.evalAssign (r1 3 3 3 ⟨8, 0, true⟩) 32 (trE c0 (.cmp .eq (.get "a") (.bin .band (.get "b") (.const 1)))) = ⟨32, 0, true⟩ :=
   ⟨by decide, by decide, by decide⟩
 
 /-- an output register that was never assigned: `q+1` is unknown in Verilog, 1 in the simulator -/
